@@ -298,12 +298,16 @@ class DescriptionText(AText):
     """The abstract description: rewriting it (str.replace, regex substitution) yields an abstract description."""
 
     def __init__(self, folded=False):
-        AText.__init__(self, AText.TEXT, "description" + (" (case-folded)" if folded else ""))
+        AText.__init__(self, AText.TEXT, "description" + (" (characters inside quotes rewritten)" if folded else ""))
         text = self
         self.folded = folded
 
         @stub
         def replace(interp, args, kwargs):
+            # str.replace does not know about quotes: replacing ONE character also replaces it where it is a quoted limit
+            # (replace(":", ELLIPSIS) turns the limit ':' into another character); longer texts cannot be a quoted limit
+            if args and isinstance(args[0], str) and len(args[0]) == 1 and len(args) > 1 and args[1] != args[0]:
+                return DescriptionText(folded=True)
             return text
 
         @stub
@@ -462,8 +466,8 @@ def constructor_table(ctx, rule, class_qualname, max_tokens, mode="wellformed", 
                 text = TokText(symbol.name)
                 text.symbol = symbol
                 if kind == "STRING" and folded[0]:
-                    # the quoted character was case-folded before it was read: its code is another number
-                    text.symbol = Sym("casefolded(%s)" % symbol.name)
+                    # the description was case-folded or rewritten regardless of quotes before it was read: the quoted character is another one
+                    text.symbol = Sym("rewritten(%s)" % symbol.name)
             elif kind == "HYPHEN":
                 text = "-"
             elif kind == "COMMA":
